@@ -1,13 +1,16 @@
 #!/bin/bash
-# usage: tools/try_seed.sh <patch.diff> [tier] [ids...]  -- applies a seeded change to /repo, runs checks (no evidence), reverts.
+# usage: tools/try_seed.sh <patch.diff> [tier] [ids...]
+# Applies a seeded change to a scratch worktree of /repo (default /tmp/wt/TRY, override with TRY_WT; TRY_WT=/repo applies to /repo itself),
+# runs the checks against it (no evidence written), and reverts.
 PATCH="$(readlink -f "$1")"; TIER="${2:-quick}"; shift 2
 IDS="$@"; [ -z "$IDS" ] && IDS="C01 C02 C03 C04 C05 C06 C07 C08 C09 C10 C11 C12 C13 C14 C15 C16 C17 C18 C19 C20"
+WT="${TRY_WT:-/tmp/wt/TRY}"
 cd "$(dirname "$0")/.."
-if [ -n "$(git -C /repo status --porcelain)" ]; then echo "/repo not clean"; exit 2; fi
-git -C /repo apply "$PATCH" || { echo "patch does not apply"; exit 2; }
-trap 'git -C /repo checkout -- . ; git -C /repo clean -fdq funsor 2>/dev/null' EXIT
+if [ -n "$(git -C "$WT" status --porcelain)" ]; then echo "$WT not clean"; exit 2; fi
+git -C "$WT" apply "$PATCH" || { echo "patch does not apply"; exit 2; }
+trap 'git -C "$WT" checkout -- . ; git -C "$WT" clean -fdq funsor 2>/dev/null' EXIT
 for id in $IDS; do
-  out=$(./check $id --tier $TIER --no-evidence 2>&1); rc=$?
-  keys=$(echo "$out" | grep "^  key=" | sed 's/^  key=\([^ ]*\).*/\1/' | sort -u | head -5 | tr '\n' ' ')
+  out=$(FV_REPO="$WT" PYTHONPATH="$WT" ./check $id --tier $TIER --no-evidence 2>&1); rc=$?
+  keys=$(echo "$out" | grep "^  key=" | sed 's/^  key=\([^ ]*\).*/\1/' | sort -u | head -4 | tr '\n' ' ')
   echo "$id rc=$rc ${keys}"
 done
